@@ -38,7 +38,7 @@ def options_for(rng):
     )
 
 
-REQUIRED_TAGS = ["redeclared-array", "redeclared-scalar", "tdm-plike-array-name", "tdm-parray", "type-options", "target-options", "kwarg-list", "loop", "op:measure", "no-arglist", "empty-arglist"]
+REQUIRED_TAGS = ["redeclared-array", "redeclared-scalar", "tdm-plike-array-name", "tdm-parray", "type-options", "target-options", "kwarg-list", "loop", "op:measure", "no-arglist", "empty-arglist", "param-named-like-variable"]
 
 
 def check_text(ctx, text, tags=()):
@@ -71,6 +71,30 @@ def check_text(ctx, text, tags=()):
         only_empty = all(d[1] == "empty-list-kwarg-dropped" for d in diffs)
         key = "empty-list-kwarg-dropped" if only_empty else common.diff_key(diffs)
         ctx.violation(key, common.diff_text(diffs), {"text": text})
+        return True
+    if int(__import__("hashlib").sha1(text.encode("utf-8", "surrogatepass")).hexdigest()[:2], 16) < 64:
+        # the program just returned is edited in place, then the same text is loaded again: the second program must
+        # again be the one the script denotes (nothing of the first result may be handed out a second time)
+        try:
+            prog.operations.append({"op": "Edited", "modes": [99]})
+            if prog.operations[0].get("modes"):
+                prog.operations[0]["modes"][0] = 98
+            prog.operations[0]["op"] = "Edited0"
+            prog.target.setdefault("options", {})["edited"] = 1 if isinstance(prog.target.get("options"), dict) else None
+            prog.modes.add(97)
+        except Exception:
+            pass
+        ctx.observe("second load of the same text after the first result was edited in place")
+        prog2, exc = common.real_loads(text)
+        if exc is not None:
+            ctx.violation("second-load:raises:" + common.exc_key(exc), "the second loads() of the same text raised %s" % common.exc_text(exc), {"text": text})
+            return True
+        if prog2 is prog:
+            ctx.violation("second-load:same-object", "the second loads() of the same text returned the object of the first", {"text": text})
+            return True
+        diffs = content.diff_ref(ref, content.program_content(prog2), variables=False, seed="C02")
+        if diffs:
+            ctx.violation("second-load:" + common.diff_key(diffs), "second load of the same text, after the first result was edited: " + common.diff_text(diffs), {"text": text})
     return True
 
 
@@ -87,7 +111,16 @@ def run(ctx):
         except RuntimeError:
             ctx.out_of_domain("generator gave up")
             continue
-        check_text(ctx, text, tags=sorted(t for t in info["tags"] if t.startswith(("redeclared", "tdm-plike"))))
+        extra = []
+        names = list(info["gen"].scalars) + list(info["gen"].arrays)
+        lines = text.split("\n")
+        if names and "" in lines and rng.random() < 0.1:
+            # a template parameter named like a variable that is declared (and used) later in the script
+            nm = rng.choice(names)
+            lines.insert(lines.index("") + 1, "Pre({%s}, k=[1, {%s}]) | 9" % (nm, nm))
+            text = "\n".join(lines)
+            extra = ["param-named-like-variable"]
+        check_text(ctx, text, tags=sorted(t for t in info["tags"] if t.startswith(("redeclared", "tdm-plike"))) + extra)
 
 
 def replay(w):
